@@ -2,11 +2,11 @@ package exec
 
 import (
 	"fmt"
-	"os"
 	"go/constant"
 	"go/token"
 	"go/types"
 	"math/big"
+	"os"
 	"strings"
 
 	"golang.org/x/tools/go/ssa"
@@ -54,26 +54,30 @@ type Exec struct {
 	classTy     map[string]types.Type
 	building    bool
 
-	entry        *State // snapshot at function entry (for old())
-	entryAlloc   *T
-	params       map[string]Val // entry values of parameters (name and name0)
-	mods         []modLoc       // evaluated modifies clause of the function under verification
-	oblCount     map[string]int
-	retCount     int
-	callCount    map[string]int
-	depth        int
-	steps        int
-	MaxSteps     int
-	Notes        []string
-	coro         *coroSched
-	pendingBinds []Val
-	SplitIdx     int
-	FoldQueries  int
+	entry         *State // snapshot at function entry (for old())
+	entryAlloc    *T
+	params        map[string]Val // entry values of parameters (name and name0)
+	mods          []modLoc       // evaluated modifies clause of the function under verification
+	oblCount      map[string]int
+	retCount      int
+	callCount     map[string]int
+	depth         int
+	steps         int
+	MaxSteps      int
+	Notes         []string
+	coro          *coroSched
+	pendingBinds  []Val
+	SplitIdx      int
+	FoldQueries   int
+	LogCalls      bool
+	Calls         []CallRec
+	freshSeq      int
+	TrivialByKind map[string]int
 }
 
 func NewExec(p *Program, fn *ssa.Function, mode Mode) *Exec {
 	return &Exec{P: p, Fn: fn, Mode: mode, Init: p.Init, assumeSeen: map[*T]bool{}, classSorts: map[string]*term.Sort{}, classTy: map[string]types.Type{},
-		oblCount: map[string]int{}, callCount: map[string]int{}, MaxSteps: 200_000_000}
+		oblCount: map[string]int{}, callCount: map[string]int{}, TrivialByKind: map[string]int{}, MaxSteps: 200_000_000}
 }
 
 func (x *Exec) fail(format string, args ...interface{}) {
@@ -121,8 +125,12 @@ func (x *Exec) oblige(st *State, kind, detail string, cond *T, pos token.Pos) {
 		return
 	}
 	if cond == term.True || st.PC == term.False {
-		// still count it as generated+discharged syntactically
-		x.Obls = append(x.Obls, &Obligation{Name: x.oblName(kind, detail), Kind: kind, PC: st.PC, Cond: term.True, NAssume: len(x.Assumptions), Pos: pos})
+		// generated and discharged syntactically (constant folding): counted, not stored, once
+		// there are many of them (unwinding produces millions)
+		x.TrivialByKind[kind]++
+		if x.TrivialByKind[kind] <= 50 {
+			x.Obls = append(x.Obls, &Obligation{Name: x.oblName(kind, detail), Kind: kind, PC: st.PC, Cond: term.True, NAssume: len(x.Assumptions), Pos: pos})
+		}
 		return
 	}
 	x.Obls = append(x.Obls, &Obligation{Name: x.oblName(kind, detail), Kind: kind, PC: st.PC, Cond: cond, NAssume: len(x.Assumptions), Pos: pos})
@@ -470,6 +478,13 @@ func (x *Exec) runRegion(st *State, b, from, stop *ssa.BasicBlock, rets *[]retRe
 						if continue2 {
 							continue2 = false
 							break
+						}
+					}
+				}
+				if x.coro != nil {
+					for _, co := range x.coro.coros {
+						if co.started && !co.done {
+							x.fail("%s: data-dependent branch while a goroutine is suspended (outside the supported subset): %s", fnName(fn), c)
 						}
 					}
 				}
